@@ -235,4 +235,9 @@ class ZeroLinearOperator(LinearOperator):
         self: Float[LinearOperator, "... #M #N"],
         other: Union[Float[Tensor, "... #M #N"], Float[LinearOperator, "... #M #N"], float],
     ) -> Union[Float[LinearOperator, "... M N"], Float[Tensor, "... M N"]]:
+        if torch.is_tensor(other) or isinstance(other, LinearOperator):
+            # 0 + X is X, broadcast to the common shape (raises if the shapes do not broadcast)
+            shape = torch.broadcast_shapes(self.shape, other.shape)
+            if other.shape != shape:
+                other = other.expand(*shape)
         return other
